@@ -534,6 +534,8 @@ pub fn cases(tier: &str) -> Vec<Value> {
     for chunk in 0..8 {
         out.push(json!({"engine":"enet","check":"c05","kind":"back-to-back","chunk":chunk,"tier":tier}));
     }
+    // well-formed upstream answers at the wrong TIME (late, or the connection closed instead)
+    out.extend(crate::checks::episode::cases("c05", tier == "thorough"));
     out
 }
 
@@ -628,7 +630,22 @@ fn run_b2b(case: &Value) -> CaseResult {
     res
 }
 
+fn run_episode(case: &Value) -> CaseResult {
+    match crate::checks::episode::run(case) {
+        Err(e) => CaseResult::machinery(format!("episode: {e}")),
+        Ok(o) => {
+            let mut res = CaseResult::ok(format!("episode:{}:{}:{}", case["c1"].as_str().unwrap_or(""), case["action"].as_str().unwrap_or(""), match o.q1.replies.first() { Some((_, m)) => format!("rcode{}", m.rcode()), None => "silent".into() }));
+            res.violations = crate::checks::episode::judge_c05(case, &o);
+            res.stats = crate::checks::episode::stats(&o);
+            res
+        }
+    }
+}
+
 pub fn run_case(case: &Value) -> CaseResult {
+    if case["kind"].as_str() == Some("episode") {
+        return run_episode(case);
+    }
     if case["kind"].as_str() == Some("back-to-back") {
         return run_b2b(case);
     }
